@@ -18,6 +18,10 @@ import (
 	"verif/harness/sm"
 )
 
+// raceBackends: where the concurrent parts run - mostly the cheap stores, sometimes badger
+// exactly as shipped (badgerstore.Open, default options, on disk)
+var raceBackends = []string{run.Bbolt, run.Bbolt, run.Bbolt, run.Bbolt, run.BadgerMem, run.BadgerMem, run.BadgerMem, run.BadgerMem, run.BadgerDefault}
+
 // c13Race: several clients try to create the same collection name at the same time
 // through CreateCollection, CreateCollectionByQuery and ImportCollection, with the schedule
 // perturbed at every store call. Whatever the interleaving, at most one creator may
@@ -33,11 +37,13 @@ type c13RaceCase struct {
 	Bits    []byte   `json:"bits"`
 }
 
-func runC13Race(c *c13RaceCase) *sm.Fail {
+func runC13Race(c *c13RaceCase) *sm.Fail { return runCatalogRace(c, "C13") }
+
+func runCatalogRace(c *c13RaceCase, owner string) *sm.Fail {
 	bad := func(clause, f string, a ...interface{}) *sm.Fail {
-		return &sm.Fail{Property: "C13", Clause: clause, Detail: fmt.Sprintf(f, a...)}
+		return &sm.Fail{Property: owner, Clause: clause, Detail: fmt.Sprintf(f, a...)}
 	}
-	s, err := sm.NewSession("C13", "c13race", c.Backend)
+	s, err := sm.NewSession(owner, "c13race", c.Backend)
 	if err != nil {
 		return bad("harness", "open: %v", err)
 	}
@@ -146,6 +152,18 @@ func runC13Race(c *c13RaceCase) *sm.Fail {
 }
 
 func init() {
+	replayers["c12race"] = func(raw json.RawMessage) *sm.Fail {
+		var c c12RaceCase
+		if err := json.Unmarshal(raw, &c); err != nil {
+			return &sm.Fail{Property: "C12", Clause: "replay", Detail: err.Error()}
+		}
+		for i := 0; i < 20; i++ {
+			if f := runC12Race(&c); f != nil {
+				return f
+			}
+		}
+		return nil
+	}
 	replayers["c13race"] = func(raw json.RawMessage) *sm.Fail {
 		var c c13RaceCase
 		if err := json.Unmarshal(raw, &c); err != nil {
@@ -159,4 +177,109 @@ func init() {
 		}
 		return nil
 	}
+}
+
+// c12Race: several clients insert documents carrying the same _id at the same time (single
+// inserts and batches). Exactly one of the colliding documents may be stored; every other
+// insert must fail with ErrDuplicateKey (or a store conflict) and leave nothing behind; the
+// stored document is one of the candidates, counters and index entries are consistent.
+type c12RaceCase struct {
+	Backend string  `json:"backend"`
+	Index   bool    `json:"index"`
+	Batches [][]int `json:"batches"` // per client: the id numbers of its batch (id 0 is the contended one)
+	Bits    []byte  `json:"bits"`
+}
+
+func runC12Race(c *c12RaceCase) *sm.Fail {
+	bad := func(clause, f string, a ...interface{}) *sm.Fail {
+		return &sm.Fail{Property: "C12", Clause: clause, Detail: fmt.Sprintf(f, a...)}
+	}
+	s, err := sm.NewSession("C12", "c12race", c.Backend)
+	if err != nil {
+		return bad("harness", "open: %v", err)
+	}
+	defer s.Close()
+	setup := []cs.Op{{Kind: "createcoll", Coll: "A"}}
+	if c.Index {
+		setup = append(setup, cs.Op{Kind: "createindex", Coll: "A", Field: "who"})
+	}
+	for _, op := range setup {
+		if f := s.Do(op); f != nil {
+			return f
+		}
+	}
+	var bitIdx int64
+	s.H.Deco.Yield = func() {
+		if len(c.Bits) == 0 {
+			return
+		}
+		b := c.Bits[int(atomic.AddInt64(&bitIdx, 1))%len(c.Bits)]
+		switch b & 3 {
+		case 1:
+			runtime.Gosched()
+		case 2:
+			time.Sleep(time.Duration(b>>2) * 3 * time.Microsecond)
+		}
+	}
+	ops := make([]cs.Op, len(c.Batches))
+	for i, b := range c.Batches {
+		var docs []cs.Doc
+		for _, k := range b {
+			id := gen.Id(k)
+			if k != 0 {
+				id = gen.Id(100*(i+1) + k) // private ids never collide
+			}
+			docs = append(docs, cs.Doc{"_id": id, "who": int64(i)})
+		}
+		ops[i] = cs.Op{Kind: "insert", Coll: "A", Docs: docs}
+	}
+	outs := make([]*cs.Outcome, len(ops))
+	var wg sync.WaitGroup
+	gate := make(chan struct{})
+	for i := range ops {
+		wg.Add(1)
+		go func(i int) {
+			defer wg.Done()
+			<-gate
+			outs[i] = run.Exec(s.H.DB, &ops[i])
+		}(i)
+	}
+	close(gate)
+	wg.Wait()
+	s.H.Deco.Yield = nil
+	m := s.M.Clone()
+	contenders, winners := 0, 0
+	for i, o := range outs {
+		if strings.HasPrefix(o.Err, "panic") || o.Err == "hang" {
+			return &sm.Fail{Property: "C20", Clause: "no-panic-no-hang", Detail: "concurrent insert: " + o.Err}
+		}
+		has0 := false
+		for _, k := range c.Batches[i] {
+			if k == 0 {
+				has0 = true
+			}
+		}
+		if has0 {
+			contenders++
+		}
+		switch {
+		case o.Err == "":
+			if has0 {
+				winners++
+			}
+			for _, d := range ops[i].Docs {
+				m.Colls["A"].Docs[d["_id"].(string)] = d
+			}
+		case o.Err == "ErrDuplicateKey" && has0, isConflict(o.Err):
+		default:
+			return bad("id-race", "concurrent Insert %v failed with %q", c.Batches[i], o.Err)
+		}
+	}
+	if winners > 1 {
+		return bad("id-race", "%d concurrent inserts of the same _id all succeeded (batches %v)", winners, c.Batches)
+	}
+	if msg := verifyState(s.H, m); msg != "" {
+		return bad("id-race", "after %d clients raced to insert the same _id (batches %v) the database is inconsistent: %s", contenders, c.Batches, msg)
+	}
+	return nil
 }
